@@ -95,7 +95,7 @@ type c09WorldIn struct {
 }
 
 type c09Step struct {
-	Op    string   `json:"op"` // "Verify"
+	Op    string   `json:"op"` // "Verify" | "Update"
 	H     int64    `json:"h"`
 	Now   int64    `json:"now"`
 	Sched []string `json:"sched"`
@@ -1031,15 +1031,20 @@ func c09ExecRun(t *testing.T, out *c09Writer, w *c09World, runNo int, r c09Run) 
 		return
 	}
 	for _, stp := range r.Steps {
-		if stp.Op != "Verify" {
+		if stp.Op != "Verify" && stp.Op != "Update" {
 			continue
 		}
+		stp := stp
 		var verr error
 		sess.schedule(stp.Sched, func() {
-			_, verr = cl.VerifyLightBlockAtHeight(context.Background(), stp.H, c09Time(stp.Now))
+			if stp.Op == "Update" {
+				_, verr = cl.Update(context.Background(), c09Time(stp.Now))
+			} else {
+				_, verr = cl.VerifyLightBlockAtHeight(context.Background(), stp.H, c09Time(stp.Now))
+			}
 		})
 		obs, evid := sess.takeLog()
-		out.emit(map[string]interface{}{"ev": "Verify", "run": runNo, "h": stp.H, "now": stp.Now, "sched": stp.Sched,
+		out.emit(map[string]interface{}{"ev": stp.Op, "run": runNo, "h": stp.H, "now": stp.Now, "sched": stp.Sched,
 			"res": c09ErrClass(verr), "obs": obs, "evid": evid,
 			"post": map[string]interface{}{"store": c09StoreIDs(w, st),
 				"primary": c09ProvNames([]provider.Provider{cl.Primary()})[0], "wits": c09ProvNames(cl.Witnesses())}})
@@ -1220,7 +1225,7 @@ func c09RandomRun(rng *rand.Rand, in c09WorldIn, H int) c09Run {
 	at := func(id string) int { return int(in.Blocks[id].H) }
 	persona := func(primary bool) [][]string {
 		t := honest()
-		k := rng.Intn(14)
+		k := rng.Intn(15)
 		if !primary && rng.Intn(3) == 0 {
 			k = 0
 		}
@@ -1289,6 +1294,17 @@ func c09RandomRun(rng *rand.Rand, in c09WorldIn, H int) c09Run {
 					t[h] = []string{"L" + strconv.Itoa(h), "R" + strconv.Itoa(h)}
 				}
 			}
+		case 14: // fork (or genuine chain) with an invalid header at one intermediate height
+			if rng.Intn(2) == 0 {
+				for h := 1; h <= H; h++ {
+					if _, ok := in.Blocks["L"+strconv.Itoa(h)]; ok {
+						t[h] = []string{"L" + strconv.Itoa(h)}
+					}
+				}
+				t[0] = t[H]
+			}
+			id := []string{"Rx", "S"}[rng.Intn(2)]
+			t[at(id)] = []string{id}
 		case 13: // fork with holes
 			for h := 1; h <= H; h++ {
 				if _, ok := in.Blocks["L"+strconv.Itoa(h)]; ok {
@@ -1331,6 +1347,10 @@ func c09RandomRun(rng *rand.Rand, in c09WorldIn, H int) c09Run {
 	for k := 0; k < 1+rng.Intn(3); k++ {
 		if rng.Intn(3) == 0 {
 			now += int64(rng.Intn(60))
+		}
+		if rng.Intn(6) == 0 {
+			r.Steps = append(r.Steps, c09Step{Op: "Update", H: 0, Now: now, Sched: perm()})
+			continue
 		}
 		r.Steps = append(r.Steps, c09Step{Op: "Verify", H: int64(1 + rng.Intn(H)), Now: now, Sched: perm()})
 	}
